@@ -601,7 +601,9 @@ def spherical(
     #     raise
 
     return SphericalHistogram.from_calculate_frequencies(
-        transformed_array, binnings=bin_schemas, weights=weights
+        transformed_array,
+        binnings=bin_schemas,
+        weights=extract_weights(weights, array_mask=array_mask),
     )
 
 
